@@ -50,6 +50,10 @@ def rand_text(rng):
             out.append(rng.choice(["'", '\n', '%', '"', ' ', '\t', '\r', "''", "'\n"]))
         elif r < 0.2:
             out.append(rng.choice(['import os', '__import__', ')', '(', ',', '.', ':-', '[]', '{}', '#', 'x = 1', 'None']))
+        elif r < 0.27:
+            # text that Unicode normalisation (NFC/NFKC), BOM stripping or newline translation would change
+            out.append(rng.choice(['e\u0301', 'A\u030a', '\u212b', '\u2126', '\uf900', '\u0344', 'q\u0307\u0323', '\ufeff', '\u200d',
+                                   '\u202e', '\ufb01', '\u00b2', '\uff21', '\r\n', '\r', '\x85', '\x0c', '\x1c', '\x00', '\u2028']))
         else:
             lo, hi = rng.choice(RANGES)
             ch = chr(rng.randrange(lo, hi + 1))
@@ -179,7 +183,12 @@ def judge(ctx, lit, rng, c):
     # two literals with the same spelling but different structure in ONE clause (head and body)
     src += 'pp(%s, %s).\npb(Pa, Pb) :- Pa = %s, Pb = %s.\n' % (text, ttext, ttext, text)
     try:
-        code = real.compile(src)
+        if rng.random() < 0.25:
+            # source text in a FILE is source text too (bytes as written: CR, CR LF and the rest stay what they are)
+            code = real.compile_file(src)
+            c['compiled_from_file'] = c.get('compiled_from_file', 0) + 1
+        else:
+            code = real.compile(src)
     except Exception as e:
         if 'too large' in str(e):
             return None, 'too_large'
